@@ -471,6 +471,26 @@ func scenarioC06(r *Run) {
 	r.AddShape(in.Kind)
 	r.AddShape(fmt.Sprintf("%x", prfKey(uint64(len(in.Bytes)), string(in.Bytes), 0, 0)))
 	segNames := []string{"coalesced", "byte-at-a-time", "random-cuts", "cuts-near-line-ends"}
+	// "The outcome depends only on the bytes exchanged": in one server-role run of three another connection
+	// is served first by the same process - a valid peer, against a server that has a certificate and
+	// therefore offers StartTLS - before the connection under judgement.
+	primed := false
+	if role == "server" && c.Chance(1, 3, "earlier-connection") {
+		primed = true
+		tail := []byte{0x55}
+		prime := c06input{Class: "VALID", Kind: "valid", SrvCert: true, Tail: tail,
+			Bytes: []byte("X-SOCKETACE / HTTP/1.1\r\nAccepts-Protocol-Version: " + c06Version + "\r\n\r\nGET / HTTP/1.1\r\nConnection: upgrade\r\nUpgrade: socketace/" + c06Version + "\r\n\r\n")}
+		po := runHandshake(r, role, prime, 0, false)
+		if r.Failed() {
+			return
+		}
+		if !po.Established {
+			r.FailSig("valid-peer-refused", "role=server kind=earlier-connection", "the earlier connection (a well-formed peer, server with a certificate) was not accepted: err=%s wrote=%q", po.Err, statusLines(po.PeerSaw))
+			return
+		}
+		r.Count("runs_with_an_earlier_connection")
+	}
+	r.Info["earlier_connection"] = primed
 	var outs []c06outcome
 	for seg := 0; seg < 4; seg++ {
 		o := runHandshake(r, role, in, seg, secure)
@@ -509,6 +529,16 @@ func scenarioC06(r *Run) {
 		if o.Established && role == "server" && !independentAccepts(in.Bytes) {
 			r.FailSig("invalid-peer-admitted", sig, "a session was established on input an independent parser rejects (%s): %q", in.Kind, truncate(string(in.Bytes), 300))
 			return
+		}
+	}
+	if role == "server" && (!in.SrvCert || secure) {
+		// a server without a certificate, or on a carrier that is already protected, does not offer StartTLS -
+		// whatever it offered on other connections
+		for _, line := range strings.Split(string(o.PeerSaw), "\r\n") {
+			if i := strings.Index(line, ":"); i > 0 && strings.EqualFold(strings.TrimSpace(line[:i]), "Capabilities") && strings.Contains(strings.ToLower(line[i+1:]), "starttls") {
+				r.FailSig("history-dependent", sig, "a server that cannot upgrade this connection (certificate=%v, carrier already protected=%v) announces %q (an earlier connection was served: %v)", in.SrvCert, secure, line, primed)
+				return
+			}
 		}
 	}
 	if role == "server" && !o.Established {
